@@ -129,7 +129,10 @@ func TestC07(t *testing.T) {
 		// ordinary lines and as the unterminated last line.  No line ends the process abnormally.
 		c.Sub("interactive-lines", func(s *Sub) {
 			atoms := []string{" ", "  ", "\t", " \t ", "\r", " \r", "\v", "\f", "\u00a0", "\u3000", "\ufeff", ":", ":help", ": x", ";", ";;", "{", "}", "{}", "(", ")", "()", "[", "]", "[]", "\"", "\"\"", "\"\\", "\"\\\"", P + " \"ক\\", P + " \"a\\\\b\";", "\\", "\\n", "/*", "*/", "/* x */", "//", "// x", "/", "#", "@", "'", "'a'", ".", "..", "1.", ".5", "1..2", "1.2.3", "-", "--", "--1;", "1--1;", "---1;", "+", "++", "1++;", "=", "==", "===", "!", "!!", "!=", "&", "&&", "|", "||", "*", "**", "***", "<", "<<", "<<<", ">", ">>", ">>>", "<=", "=>", "=<", "?", "`", "~", "~~", "^", "%", "$", ",", ",,", "_", "__;", "0x1F;", "1e3;", "1_000;", "0b1;", "'", "\u0964", "\u09f3", "\U0001f600", "\u200d", "\u0300",
-				bn.KwVar, bn.KwVar + " ;", bn.KwFun, bn.KwFun + " ()", bn.KwIf, bn.KwElse, bn.KwWhile, bn.KwFor, bn.KwFor + " (;;", bn.KwPrint, bn.KwReturn, bn.KwReturn + ";", bn.KwBreak, bn.KwContinue, bn.KwTrue, bn.KwFalse, "nil", bn.KwAnd, bn.KwOr, bn.BLen, bn.BLen + "(", bn.BInput, bn.BInput + "(", bn.BClock + "()", bn.BMax + "()", bn.BPush + "(1)"}
+				bn.KwVar, bn.KwVar + " ;", bn.KwFun, bn.KwFun + " ()", bn.KwIf, bn.KwElse, bn.KwWhile, bn.KwFor, bn.KwFor + " (;;", bn.KwPrint, bn.KwReturn, bn.KwReturn + ";", bn.KwBreak, bn.KwContinue, bn.KwTrue, bn.KwFalse, "nil", bn.KwAnd, bn.KwOr, bn.BLen, bn.BLen + "(", bn.BInput, bn.BInput + "(", bn.BClock + "()", bn.BMax + "()", bn.BPush + "(1)",
+				// lines whose value (echoed at the prompt) or operands are containers of unusual make: containing themselves, empty
+				bn.KwVar + " a = [1]; a[0] = a;", bn.KwVar + " o = {}; o.o = o;", bn.KwVar + " a = [1]; a[0] = a; a;", bn.KwVar + " a = [1]; a[0] = a; " + P + " a;", bn.KwVar + " a = [1]; a[0] = a; [a];",
+				"[] == [];", "[] != [];", bn.KwVar + " e = []; e == e;", "({}) == ({});", bn.KwVar + " e = []; e[0];", bn.BRemove + "([1], 0) == [];", "[[]] == [[]];", "[];", "({});", "[nil];"}
 			var k int64
 			const per = 12
 			for from := 0; from < len(atoms); from += per {
